@@ -155,7 +155,7 @@ def call_job(prog, name, arg_lists, deadline, seed=0, mode='values', label='', n
 
 # ------------------------------------------------------------------ value universes
 NUMS = [0, 1, -1, 1.5, -1.5, 2, 1.0]
-STRS = ['', 'a', 'ab', 'b', 'ba', 'é', 'aé', '\U0001d11ea']
+STRS = ['', 'a', 'ab', 'b', 'ba', 'é', 'aé', '\U0001d11ea', 'e\u0301x']          # incl. an astral character and a combining mark after its base
 NUMSTR = ['1', '-1', '1.5', '1e2', ' 1', '01', 'true', 'null', '[1]', '{}', '"1"', 'x', '', '1.', '-', '1e400', '0', '-0']
 def arrays_of(elems, maxlen):
     out = [[]]
